@@ -55,7 +55,7 @@ impl Write for Sink {
         if self.intr_budget < 2 && self.rng.gen_range(0..1000) < self.intr_pm {
             self.intr_budget += 1;
             if self.log {
-                crate::trace::rec(json!({"ev":"sink","offered":buf.len(),"kind":"intr","n":0}));
+                crate::trace::rec(json!({"ev":"sink","offered":buf.len(),"kind":"intr","n":0,"bytes":[]}));
             }
             return Err(io::Error::new(io::ErrorKind::Interrupted, "transient"));
         }
@@ -64,14 +64,14 @@ impl Write for Sink {
         if self.fail_at_call == Some(self.decisive) {
             self.state.borrow_mut().failed = true;
             if self.log {
-                crate::trace::rec(json!({"ev":"sink","offered":buf.len(),"kind":"err","n":0}));
+                crate::trace::rec(json!({"ev":"sink","offered":buf.len(),"kind":"err","n":0,"bytes":[]}));
             }
             return Err(io::Error::new(io::ErrorKind::Other, "injected sink fault"));
         }
         if self.zero_at_call == Some(self.decisive) && !buf.is_empty() {
             self.state.borrow_mut().failed = true;
             if self.log {
-                crate::trace::rec(json!({"ev":"sink","offered":buf.len(),"kind":"zero","n":0}));
+                crate::trace::rec(json!({"ev":"sink","offered":buf.len(),"kind":"zero","n":0,"bytes":[]}));
             }
             return Ok(0);
         }
